@@ -36,7 +36,7 @@ Definition globals : list gobj := [
   mkGobj "snoopy_tsrm_threadRepo_data" "" "src/tsrm.c" "list_t" false false ""
     [];
   mkGobj "snoopy_tsrm_threadRepo_mutex" "" "src/tsrm.c" "pthread_mutex_t" false false ""
-    [mkAcc "src/tsrm.c" "snoopy_tsrm_atfork_child" "arg" "pthread_mutex_init:0:mut"; mkAcc "src/tsrm.c" "snoopy_tsrm_atfork_parent" "arg" "pthread_mutex_unlock:0:mut"; mkAcc "src/tsrm.c" "snoopy_tsrm_atfork_prepare" "arg" "pthread_mutex_lock:0:mut"; mkAcc "src/tsrm.c" "snoopy_tsrm_ctor" "arg" "pthread_mutex_lock:0:mut"; mkAcc "src/tsrm.c" "snoopy_tsrm_ctor" "arg" "pthread_mutex_unlock:0:mut"; mkAcc "src/tsrm.c" "snoopy_tsrm_doesThreadRepoEntryExist" "arg" "pthread_mutex_lock:0:mut"; mkAcc "src/tsrm.c" "snoopy_tsrm_doesThreadRepoEntryExist" "arg" "pthread_mutex_unlock:0:mut"; mkAcc "src/tsrm.c" "snoopy_tsrm_dtor" "arg" "pthread_mutex_lock:0:mut"; mkAcc "src/tsrm.c" "snoopy_tsrm_dtor" "arg" "pthread_mutex_unlock:0:mut"; mkAcc "src/tsrm.c" "snoopy_tsrm_getCurrentThreadRepoEntry" "arg" "pthread_mutex_lock:0:mut"; mkAcc "src/tsrm.c" "snoopy_tsrm_getCurrentThreadRepoEntry" "arg" "pthread_mutex_unlock:0:mut"; mkAcc "src/tsrm.c" "snoopy_tsrm_get_threadCount" "arg" "pthread_mutex_lock:0:mut"; mkAcc "src/tsrm.c" "snoopy_tsrm_get_threadCount" "arg" "pthread_mutex_unlock:0:mut"; mkAcc "src/tsrm.c" "snoopy_tsrm_init" "arg" "pthread_mutex_init:0:mut"; mkAcc "src/tsrm.c" "snoopy_tsrm_localtime_r" "arg" "pthread_mutex_lock:0:mut"; mkAcc "src/tsrm.c" "snoopy_tsrm_localtime_r" "arg" "pthread_mutex_unlock:0:mut"];
+    [mkAcc "src/tsrm.c" "snoopy_tsrm_atfork_child" "arg" "pthread_mutex_init:0:mut"; mkAcc "src/tsrm.c" "snoopy_tsrm_atfork_parent" "arg" "pthread_mutex_unlock:0:mut"; mkAcc "src/tsrm.c" "snoopy_tsrm_atfork_prepare" "arg" "pthread_mutex_lock:0:mut"; mkAcc "src/tsrm.c" "snoopy_tsrm_ctor" "arg" "pthread_mutex_lock:0:mut"; mkAcc "src/tsrm.c" "snoopy_tsrm_ctor" "arg" "pthread_mutex_unlock:0:mut"; mkAcc "src/tsrm.c" "snoopy_tsrm_doesThreadRepoEntryExist" "arg" "pthread_mutex_lock:0:mut"; mkAcc "src/tsrm.c" "snoopy_tsrm_doesThreadRepoEntryExist" "arg" "pthread_mutex_unlock:0:mut"; mkAcc "src/tsrm.c" "snoopy_tsrm_dtor" "arg" "pthread_mutex_lock:0:mut"; mkAcc "src/tsrm.c" "snoopy_tsrm_dtor" "arg" "pthread_mutex_unlock:0:mut"; mkAcc "src/tsrm.c" "snoopy_tsrm_getCurrentThreadRepoEntry" "arg" "pthread_mutex_lock:0:mut"; mkAcc "src/tsrm.c" "snoopy_tsrm_getCurrentThreadRepoEntry" "arg" "pthread_mutex_unlock:0:mut"; mkAcc "src/tsrm.c" "snoopy_tsrm_get_threadCount" "arg" "pthread_mutex_lock:0:mut"; mkAcc "src/tsrm.c" "snoopy_tsrm_get_threadCount" "arg" "pthread_mutex_unlock:0:mut"; mkAcc "src/tsrm.c" "snoopy_tsrm_getutline" "arg" "pthread_mutex_lock:0:mut"; mkAcc "src/tsrm.c" "snoopy_tsrm_getutline" "arg" "pthread_mutex_unlock:0:mut"; mkAcc "src/tsrm.c" "snoopy_tsrm_init" "arg" "pthread_mutex_init:0:mut"; mkAcc "src/tsrm.c" "snoopy_tsrm_localtime_r" "arg" "pthread_mutex_lock:0:mut"; mkAcc "src/tsrm.c" "snoopy_tsrm_localtime_r" "arg" "pthread_mutex_unlock:0:mut"; mkAcc "src/tsrm.c" "snoopy_tsrm_strftime" "arg" "pthread_mutex_lock:0:mut"; mkAcc "src/tsrm.c" "snoopy_tsrm_strftime" "arg" "pthread_mutex_unlock:0:mut"];
   mkGobj "snoopy_tsrm_threadRepo_mutexAttr" "" "src/tsrm.c" "pthread_mutexattr_t" false false ""
     [mkAcc "src/tsrm.c" "snoopy_tsrm_atfork_child" "arg" "pthread_mutex_init:1:const"; mkAcc "src/tsrm.c" "snoopy_tsrm_init" "arg" "pthread_mutex_init:1:const"; mkAcc "src/tsrm.c" "snoopy_tsrm_init" "arg" "pthread_mutexattr_init:0:mut"; mkAcc "src/tsrm.c" "snoopy_tsrm_init" "arg" "pthread_mutexattr_settype:0:mut"]
 ].
@@ -94,7 +94,7 @@ Definition fn_refs : list (string * list string) := [
   ("snoopy_datasource_cgroup", ["doesCgroupEntryContainController"; "free"; "getpid"; "malloc"; "snoopy_util_file_getSmallTextFileContent"; "snoopy_util_string_containsOnlyDigits"; "snoopy_util_string_findLineStartingWith"; "snoopy_util_string_nullTerminateLine"; "snprintf"; "strcmp"; "strlen"; "strtok_r"]);
   ("snoopy_datasource_cmdline", ["snoopy_inputdatastorage_get"; "snprintf"]);
   ("snoopy_datasource_cwd", ["getcwd"; "snprintf"]);
-  ("snoopy_datasource_datetime", ["__errno_location"; "snoopy_tsrm_localtime_r"; "snprintf"; "strftime"; "time"]);
+  ("snoopy_datasource_datetime", ["__errno_location"; "snoopy_tsrm_localtime_r"; "snoopy_tsrm_strftime"; "snprintf"; "time"]);
   ("snoopy_datasource_domain", ["__errno_location"; "fclose"; "fgets"; "fopen"; "gethostname"; "snprintf"; "strcasestr"; "strchr"; "strlen"; "strtok_r"]);
   ("snoopy_datasource_egid", ["getegid"; "snprintf"]);
   ("snoopy_datasource_egroup", ["free"; "getegid"; "getgrgid_r"; "malloc"; "snprintf"; "sysconf"]);
@@ -200,9 +200,11 @@ Definition fn_refs : list (string * list string) := [
   ("snoopy_tsrm_get_configuration", ["snoopy_tsrm_getCurrentThreadData"]);
   ("snoopy_tsrm_get_inputdatastorage", ["snoopy_tsrm_getCurrentThreadData"]);
   ("snoopy_tsrm_get_threadCount", ["pthread_mutex_lock"; "pthread_mutex_unlock"]);
+  ("snoopy_tsrm_getutline", ["endutent"; "getutline_r"; "pthread_mutex_lock"; "pthread_mutex_unlock"; "setutent"]);
   ("snoopy_tsrm_init", ["pthread_atfork"; "pthread_mutex_init"; "pthread_mutexattr_init"; "pthread_mutexattr_settype"; "snoopy_tsrm_atfork_child"; "snoopy_tsrm_atfork_parent"; "snoopy_tsrm_atfork_prepare"]);
   ("snoopy_tsrm_localtime_r", ["localtime_r"; "pthread_mutex_lock"; "pthread_mutex_unlock"]);
   ("snoopy_tsrm_onLoad", ["pthread_once"; "snoopy_tsrm_init"]);
+  ("snoopy_tsrm_strftime", ["pthread_mutex_lock"; "pthread_mutex_unlock"; "strftime"]);
   ("snoopy_util_file_getSmallTextFileContent", ["__errno_location"; "clearerr"; "fclose"; "feof"; "ferror"; "fopen"; "fread"; "free"; "malloc"; "snprintf"; "strerror_r"]);
   ("snoopy_util_list_fetchNextNode", []);
   ("snoopy_util_list_push", ["calloc"; "snoopy_error_handler"]);
@@ -225,7 +227,7 @@ Definition fn_refs : list (string * list string) := [
   ("snoopy_util_systemd_convertCgroupEntryToUnitName", ["cgroupEntry_movePastInitialChaff"; "snoopy_util_systemd_convertUserSliceInfoToUsername"; "strchr"; "strcmp"; "strdup"; "strlen"; "strncmp"; "strndup"]);
   ("snoopy_util_systemd_convertUserSliceInfoToUsername", ["atoi"; "snoopy_util_pwd_convertUidToUsername"; "strchr"; "strncmp"]);
   ("snoopy_util_utmp_doesEntryContainIpAddr", []);
-  ("snoopy_util_utmp_findUtmpEntryByLine", ["endutent"; "getutline_r"; "setutent"; "strncpy"]);
+  ("snoopy_util_utmp_findUtmpEntryByLine", ["snoopy_tsrm_getutline"; "strncpy"]);
   ("snoopy_util_utmp_findUtmpEntryByPath", ["snoopy_util_utmp_findUtmpEntryByLine"; "strlen"; "strncmp"]);
   ("snoopy_util_utmp_getUtmpIpAddrAsString", ["inet_ntop"]);
   ("snoopy_util_utmp_test_setAlternateUtmpFilePath", ["utmpname"]);
